@@ -105,3 +105,13 @@ Definition row_search (vs : list var) (fp : flatprog) (T : tenv) (ms : list mono
 Definition init_search (fp : flatprog) (ms : list mono) (v : list Qc) : option nat :=
   find_idx (fun mv : mono * Qc => negb (Qc_eqb (E (exec_gas no_law (fp_init fp) st0) (eval_mono (fst mv))) (snd mv)))
            (combine ms v) 0.
+
+(* ---- the joint law on a list of variables after n iterations (compacted) ---- *)
+Definition law_on (vs : list var) (d : dist state) : list ((Z * positive) * list (Z * positive)) :=
+  map (fun ws : Qc * state => (qpair (fst ws), map (fun x => qpair (snd ws x)) vs)) (compact vs d).
+Fixpoint src_laws_aux (allvs obs : list var) (p : prog) (d : dist state) (N : nat)
+  : list (list ((Z * positive) * list (Z * positive))) :=
+  law_on obs d ::
+  match N with O => [] | S N' => src_laws_aux allvs obs p (compact allvs (bind d (iter no_law p))) N' end.
+Definition src_laws (allvs obs : list var) (p : prog) (N : nat) :=
+  src_laws_aux allvs obs p (compact allvs (exec_block no_law (p_init p) st0)) N.
